@@ -1424,6 +1424,152 @@ Definition c16_run10 (case obs : sx) : verdict :=
       end
   end.
 
+(* ==== which = 11: rules that carry their OWN limit_distribution (in-memory backend; a plain throttle.Plugin started
+   through the public API, the injected clock set on its limiters map).
+     case  = (count interval (rule ...) (event ...)),  rule = (limit kind conds groups) as for which = 9,
+             groups = ((percent (value id ...)) ...); the last rule is the default rule: its limit is default_limit,
+             its groups are the plugin-level limit_distribution
+             event = (now ts size dv ((field value) ...)),  dv = -1 | value id   (field "d" = "v<id>" / "w<id>")
+     obs   = ((decision ...) final)   final = (0 (limiter-key ...)) sorted | (2)
+   The SPECIFIED shares of a limiter are those of the rule that created it: share(value) = round(ratio x the limit of
+   the MATCHING rule), the default share round((1 - sum of ratios) x that same limit) — for the default rule the
+   limit is default_limit, for every other rule its own limit, whatever default_limit is.  Both the model (the ring,
+   [allow]) and the predicate (the reference semantics [s_run]) are run on that configuration, so a Plugin that
+   derives a rule's shares from any other limit fails the PREDICATE: some key passes more than a share allows, or is
+   rejected below it.                                                                                             *)
+Definition drules := list (rule * groups).
+Fixpoint first_match2 (rs : drules) (n : Z) (ev : fields) : option (Z * rule * groups) :=
+  match rs with
+  | [] => None
+  | (r, gs) :: rs' => if rule_match r ev then Some (n, r, gs) else first_match2 rs' (n + 1) ev
+  end.
+Record dpcfg := { w_count : Z; w_interval : Z; w_rules : drules }.
+(* whole percents, exact arithmetic: share_of total pct = round(pct * total / 100) *)
+Definition spec_deflimit (lm : Z) (gs : groups) : Z :=
+  match gs with [] => 0 | _ :: _ => share_of lm (100 - gsum gs) end.
+Definition spec_shares (lm : Z) (gs : groups) : list Z := map (share_of lm) (map fst gs).
+Definition spec_cfg (p : dpcfg) (r : rule) (gs : groups) : cfg :=
+  {| count := w_count p; interval := w_interval p; size_kind := r_size r; limit := r_limit r;
+     deflimit := spec_deflimit (r_limit r) gs; shares := spec_shares (r_limit r) gs |}.
+Record dev := { v_now : Z; v_ts : Z; v_size : Z; v_dv : option Z; v_fields : fields }.
+(* the distribution the event's value is listed in (by the limiter's own groups) *)
+Definition dv_slot (gs : groups) (dv : option Z) : option Z :=
+  match dv with None => None | Some id => group_idx gs id 0 end.
+Definition dev_op (gs : groups) (e : dev) : op :=
+  {| o_now := v_now e; o_ts := v_ts e; o_size := v_size e; o_dv := dv_slot gs (v_dv e) |}.
+(* the limiter keeps the limit AND the distribution it was created with *)
+Definition dmap := list (bytes * (cfg * groups * lim)).
+Definition dm_find (p : dpcfg) (m : dmap) (k : bytes) (r : rule) (gs : groups) : cfg * groups * lim :=
+  match a_get m k with Some x => x | None => (spec_cfg p r gs, gs, lim0 (spec_cfg p r gs)) end.
+Definition dstep (p : dpcfg) (m : dmap) (e : dev) : res (dmap * bool) :=
+  match first_match2 (w_rules p) 0 (v_fields e) with
+  | None => Ok (m, true)
+  | Some (n, r, gs0) =>
+      let k := lim_key n (throttle_key (v_fields e)) in
+      let '(c, gs, l) := dm_find p m k r gs0 in
+      let o := dev_op gs e in
+      ' (l', b) <- allow c l (o_now o) (o_ts o) (o_size o) (o_dv o) ;;
+      Ok (a_set m k (c, gs, l'), b)
+  end.
+Fixpoint drun (p : dpcfg) (m : dmap) (es : list dev) : list bool * res dmap :=
+  match es with
+  | [] => ([], Ok m)
+  | e :: r =>
+      match dstep p m e with
+      | Ok (m', b) => let '(bs, fin) := drun p m' r in (b :: bs, fin)
+      | Err x => ([], Err x)
+      | Panic x => ([], Panic x)
+      end
+  end.
+Definition dev_key (p : dpcfg) (e : dev) : option bytes :=
+  match first_match2 (w_rules p) 0 (v_fields e) with
+  | None => None
+  | Some (n, _, _) => Some (lim_key n (throttle_key (v_fields e)))
+  end.
+Definition dev_rule (p : dpcfg) (e : dev) : option (rule * groups) :=
+  match first_match2 (w_rules p) 0 (v_fields e) with
+  | None => None
+  | Some (_, r, gs) => Some (r, gs)
+  end.
+Definition dfor_key (p : dpcfg) (k : bytes) (e : dev) : bool :=
+  match dev_key p e with Some k' => bytes_eqb k' k | None => false end.
+Fixpoint dkeys_of (p : dpcfg) (es : list dev) : list bytes :=
+  match es with
+  | [] => []
+  | e :: r => match dev_key p e with Some k => insert_key k (dkeys_of p r) | None => dkeys_of p r end
+  end.
+(* the rule (and its distribution) that the first event of a key matched *)
+Definition dkey_rule (p : dpcfg) (k : bytes) (es : list dev) : option (rule * groups) :=
+  match filter (dfor_key p k) es with e :: _ => dev_rule p e | [] => None end.
+Definition dops_for (p : dpcfg) (k : bytes) (gs : groups) (es : list dev) : list op :=
+  map (dev_op gs) (filter (dfor_key p k) es).
+Definition d_timed (p : dpcfg) (e : dev) : bool := w_count p * w_interval p <=? v_now e.
+Definition dunthrottled (p : dpcfg) (e : dev) : bool := match dev_key p e with None => true | Some _ => false end.
+(* the property's predicate: every key's decisions are those of the reference semantics run on that key's events alone
+   with the limit of the first matching rule and the SPECIFIED shares of that rule (each listed value within its share,
+   the total within the sum of the shares, nothing rejected below them: c16_rule_distr_shares) *)
+Definition c16_pred11 (p : dpcfg) (es : list dev) (obs : sx) : bool :=
+  if (1 <=? w_count p) && (Z.of_nat (length (w_rules p)) <=? 256) && forallb (d_timed p) es then
+    match decisions_of obs with
+    | Some ds =>
+        (length ds =? length es)%nat &&
+        forallb (fun k =>
+                   match dkey_rule p k es with
+                   | Some (r, gs) => bools_eqb (pick (dfor_key p k) es ds)
+                                       (snd (s_run (spec_cfg p r gs) spec0 (dops_for p k gs es)))
+                   | None => true
+                   end) (dkeys_of p es) &&
+        bools_eqb (pick (dunthrottled p) es ds) (map (fun _ => true) (filter (dunthrottled p) es))
+    | None => false
+    end
+  else true.
+Definition sx_of_drun (r : list bool * res dmap) : sx :=
+  SL [SL (map of_bool (fst r)); sx_of_res (fun m => SL (map SB (fold_right insert_key [] (map fst m)))) (snd r)].
+Definition dev_of_sx (s : sx) : option dev :=
+  match s with
+  | SL [SZ n; SZ t; SZ z; SZ d; fs] =>
+      match as_list kv_of_sx fs with
+      | Some f => if (-1 <=? d) && (0 <=? z) then Some {| v_now := n; v_ts := t; v_size := z; v_dv := dv_of d; v_fields := f |} else None
+      | None => None
+      end
+  | _ => None
+  end.
+(* float64: ratio = float64(pct)/100, share = Round(ratio * float64(limit)).  The exact products lie on the 0.01 grid,
+   the float64 error is far below it for limits <= 10^12, so the share is the exact nearest integer unless the product
+   is a tie x.5: then only the ratios that float64 represents exactly (0, 0.25, 0.5, 0.75, 1) are decided here (Round is
+   half away from zero = round_div).  Ratios that sum to exactly 1 are accepted only when all are such dyadic ratios
+   (otherwise the float64 sum may exceed 1 and Start refuses the configuration, see which = 2). *)
+Definition dyadic_pct (q : Z) : bool := (q mod 25 =? 0).
+Definition shares_exact (lm : Z) (gs : groups) : bool :=
+  match gs with
+  | [] => true
+  | _ :: _ =>
+      (0 <=? lm) && (lm <=? 10 ^ 12) &&
+      forallb (fun q => negb ((q * lm) mod 100 =? 50) || dyadic_pct q) ((100 - gsum gs) :: map fst gs) &&
+      (negb (gsum gs =? 100) || forallb dyadic_pct (map fst gs))
+  end.
+Definition case11 (s : sx) : option (dpcfg * list dev) :=
+  match s with
+  | SL [SZ cnt; SZ itv; rs; es] =>
+      match as_list rule9_of_sx rs, as_list dev_of_sx es with
+      | Some rules, Some evs =>
+          if (0 <=? cnt) && (1 <=? itv) && (1 <=? len rules) &&
+             forallb (fun rg => groups_ok (snd rg) && forallb (fun g => 1 <=? fst g) (snd rg) &&
+                                shares_exact (r_limit (fst rg)) (snd rg)) rules &&
+             (match last rules ({| r_conds := [(KEY, KEY)]; r_limit := 0; r_size := false |}, []) with
+              | (r, _) => match r_conds r with [] => true | _ => false end end)
+          then Some ({| w_count := cnt; w_interval := itv; w_rules := rules |}, evs) else None
+      | _, _ => None
+      end
+  | _ => None
+  end.
+Definition c16_run11 (case obs : sx) : verdict :=
+  match case11 case with
+  | None => BadCase
+  | Some (p, es) => verdict_of (sx_of_drun (drun p [] es)) obs (c16_pred11 p es obs)
+  end.
+
+
 Definition c16_entry (which : Z) (case obs : sx) : verdict :=
   match which with
   | 0 => c16_run0 case obs
@@ -1436,5 +1582,6 @@ Definition c16_entry (which : Z) (case obs : sx) : verdict :=
   | 8 => c16_run8 case obs
   | 9 => c16_run9 case obs
   | 10 => c16_run10 case obs
+  | 11 => c16_run11 case obs
   | _ => c16_run2 case obs
   end.
